@@ -428,6 +428,10 @@ def obligations(tier):
                     tags=("cross_backend",),
                 )
             )
+    from . import c10
+
+    obs.append(Obligation("C11/M7/caller_containers", "M7", "metadata and frame stay in agreement when the caller changes a dict / list it passed to a verb afterwards (native)", c10.f3_run,
+                          functions=[H.fn_info(verbs_mod.rename), H.fn_info(verbs_mod.join)], bounded="11 call shapes x 2 backends (native execution)"))
     return obs
 
 
